@@ -3,6 +3,8 @@ have been observed for a 'held' verdict, and how the evidence is written."""
 from vdriver import Job, NCPU
 
 ENGINES = {
+    'h_thread': dict(tulz=['threading'], spy=True, schedule_sensitive=True, setup_variants=['mon', 'asan'],
+                     kind='canary callables, dead-stack clobbering, late-start trampoline delays and completion marks for tulz::Thread; mon and ASan builds'),
     'h_file': dict(tulz=['fs'], setup_variants=['asan'], kind='byte-vector + position model for tulz::File in a private directory, cross-checked with std::filesystem, ASan/UBSan'),
     'h_path': dict(tulz=['fs'], setup_variants=['asan'], kind='generated directory trees vs std::filesystem, path-string identities, DirectoryVisitor cwd checks, ASan/UBSan'),
     'h_locale': dict(tulz=['locale'], setup_variants=['asan'],
@@ -434,3 +436,34 @@ SPECS['C18'] = dict(
                  'runs as a user who can read every generated entry (exists() is implemented with fopen)'],
     manifest=dict(engine='h_path', text='Generated directory trees compared node by node with std::filesystem, string identities exactly as stated over generated path strings, working directory observed around nested '
                   'DirectoryVisitors, under ASan/UBSan.', note=SAN_NOTE, technique='runtime monitoring: differential check against std::filesystem + stated identities under ASan/UBSan'))
+
+
+# ----------------------------------------------------------------------------- Thread (C20)
+
+def thread_jobs(tier, seed):
+    q = tier == 'quick'
+    jobs = []
+    plan = (('mon', 1200), ('asan', 600)) if q else (('mon', 30000), ('asan', 12000), ('mon-ndebug', 10000), ('asan-O0', 4000))
+    for vi, (variant, n) in enumerate(plan):
+        for frm, cnt in split(n, 8):
+            jobs.append(Job('h_thread', variant, pseed(seed, 'C20', vi), frm, cnt, label=variant))
+    return jobs
+
+
+SPECS['C20'] = dict(
+    title='tulz::Thread runs its callable once, on a live copy',
+    jobs=thread_jobs,
+    require={'any': {'starts': 1500, 'lateStarts': 700, 'polledFinishes': 500, 'runnables': 150}},
+    evidence=lambda agg, samples, distinct, tier: cov(
+        agg.get('starts', 0), distinct,
+        'case = one Thread started through start() or the constructor with a function pointer, a small closure, a 256-byte functor, a copyable functor (each carrying a canary poisoned by a volatile store in its '
+        'destructor) and 0-3 lvalue arguments, or with a Runnable; the new thread is delayed 0-5 ms in the interposer trampoline before its first instruction while the starter returns from start() and '
+        'overwrites 32 KB of its dead stack; monitors: canary at entry and exit of the call, invocation count == 1, executing tid != starter tid, arguments by address and value, isFinished() false inside the '
+        'callable, a poller that sees isFinished() must then see the callable\'s last action, the same after join(); Runnable run once, destroyed once, after run(). ASan build: the same defect class shows as '
+        'stack-use-after-scope/-return. non-trivial = the body began after start() had returned; distinct = distinct (kind, args, path, delay bucket) among those',
+        samples, observed=pick(agg, 'starts', 'lateStarts', 'polledFinishes', 'runnables', 'canaryChecks', 'argumentIdentityChecks', 'callableCopiesObserved'), kinds=agg.get('kinds', {})),
+    assumptions=['arguments are lvalues that outlive the thread (the statement quantifies over lvalue argument lists)', 'the Thread object outlives join()'],
+    manifest=dict(engine='h_thread', text='Canary-carrying callables under manufactured late scheduling (trampoline delay + dead-stack clobbering) in a plain monitored build, and the same starts under ASan with '
+                  'stack-use-after-return detection; completion ordering checked through marks written by the callable.',
+                  note='Schedules are steered (thread-start delay), not enumerated; trusted: the interposer trampoline, ASan fake-stack detection.',
+                  technique='runtime monitoring: canary/identity monitors with injected scheduling delay + ASan stack-use-after-return'))
